@@ -437,6 +437,12 @@ impl Module {
 
         // Make an inline constant buffer to store bindings that can be stored as constants
         assert!(self.inline_constant_buffers.is_empty());
+        #[cfg(rssl_verif)]
+        rssl_text::verif::probe(
+            "ir::ir_module::inline_constant_sizes",
+            inline_size.len(),
+            rssl_text::verif::order_sig(inline_size.keys()),
+        );
         for (set, size) in inline_size {
             let binding = *used_slots.get(&set).unwrap_or(&0);
             self.inline_constant_buffers.push(InlineConstantBuffer {
